@@ -78,13 +78,28 @@ fn main() {
             println!("{}", fam_c14::hash_of(&fam_c14::CANON));
         }
         Some("scenarios") => {
-            for sc in scenarios::all() {
-                let s = sim::Sim::run_opts(&sc.trace, false, !sc.symptom_oracles.is_empty());
-                println!("{}: harness_error={:?}", sc.id, s.harness_error);
-                for v in &s.violations {
-                    println!("    {} {} @{}: {}", v.prop, v.oracle, v.step, v.detail);
+            // Runs every directed history and prints which of them violate which property.
+            fn show<E: engine::Engine>(prop: &str) {
+                use engine::Engine;
+                for d in E::directed(prop) {
+                    let o = E::run(&d.trace, false, !d.symptom_oracles.is_empty());
+                    let mut kinds: Vec<String> = o.violations.iter().map(|v| format!("{}:{}", v.prop, v.oracle)).collect();
+                    kinds.sort();
+                    kinds.dedup();
+                    println!("{} {} harness_error={:?} violations={:?}", E::FAMILY, d.id, o.harness_error, kinds);
                 }
             }
+            for sc in scenarios::all() {
+                let s = sim::Sim::run_opts(&sc.trace, false, !sc.symptom_oracles.is_empty());
+                let mut kinds: Vec<String> = s.violations.iter().map(|v| format!("{}:{}", v.prop, v.oracle)).collect();
+                kinds.sort();
+                kinds.dedup();
+                println!("replication {} harness_error={:?} violations={:?}", sc.id, s.harness_error, kinds);
+            }
+            show::<fam_c12::C12c>("C12");
+            show::<fam_c13::C13>("C13");
+            show::<fam_c14::C14>("C14");
+            show::<fam_c17::C17>("C17");
         }
         Some("shrink") => {
             // shrink <prop> <seed> <index> <viol-prop> <oracle>
